@@ -107,6 +107,19 @@ def run(rep, tier, seed, rng):
             rep.violation("var_options rendering differs from start ++ joined(prefix+v+suffix) ++ end",
                           dict(request=req, case=meta, implementation=a, specification=b,
                                decode="tokens are hex-encoded; '.'=empty, '-'=absent"), found_input=True)
+    # end to end: var_options declared on contexts / builders, inherited by descendants that define none
+    from . import gen_common
+    ecases = [c for c in gen_common.load_cases(rng, tier, 120, 2000, focus="env")]
+    lz, dr, results = gen_common.run_cases(ecases)
+    nopt = 0; ne2e = 0
+    for c, r in zip(ecases, results):
+        if any("var_options" in x for docs in c[0].values() for d in docs for x in (d.get("contexts") or []) + (d.get("builders") or [])):
+            nopt += 1
+        if r["tags"] & {"ninja", "crash", "rc"} and not (r["tags"] & {"configured", "modules", "nobuilds"}):
+            ne2e += 1
+            rep.violation("commands rendered with var_options (own or inherited from an ancestor context) differ from the model: " + "; ".join(r["dis"])[:300],
+                          gen_common.replay_data(r), found_input=True)
+    rep.cov.update(e2e_projects=len(ecases), e2e_projects_with_var_options=nopt, e2e_disagreements=ne2e)
     rep.cov.update(evaluations=len(cases), distinct_nontrivial=len(distinct),
                    rule="exhaustive lists (len<=%d over {'', 'a', 'b b'}) x 2^5 option subsets, plus random lists/options/from:; "
                         "non-trivial = list with an empty element and >=1 option; distinct = distinct request lines" % (3 if tier == "quick" else 4),
